@@ -198,6 +198,9 @@ def _run(eng, c, fn, scenario):
             eng.oblige(s, g, "raises-only", f"{declared[0]}", node, text=f"{exc} raised only if {declared[1]}")
             if c.frame_on_raise:
                 frame_obligations(eng, c, s, node)
+        for i_x, cl in enumerate(c.ensures_on_raise):
+            g_x = SpecEval(eng, s, pre_state=s.old).boolean(cl)
+            eng.oblige(s, g_x, "on-raise", f"{c.labels.get(cl, i_x)}", node, text=f"when {exc} leaves the function: {cl}")
 
     ctx = Ctx(exit_normal, exit_raise)
     eng.exec_block(fn.body, st, lambda s: exit_normal(s, VNONE), ctx)
